@@ -73,6 +73,17 @@ def items(tier):
                 for tol in ((0,) if q else (0, "1e-7")):
                     out.append(dict(kind="history", id="n2-%s-z%s-%s-tol%s" % (mclass, "".join("%d%d" % tuple(p) for p in zp) or "none", hname, tol),
                                     n=2, mclass=mclass, zeros=zp, hist=hname, tol=tol))
+    # update() with a CHANGED sparsity pattern: dofs that were decoupled in the first matrix are coupled in the second
+    for mclass in ("general", "symmetric"):
+        for za, zb in (([[0, 1], [1, 0]], []), ([[0, 1]], [[1, 0]]), ([], [[0, 1], [1, 0]])):
+            if mclass == "symmetric":
+                if za == [[0, 1]]:
+                    continue
+                za, zb = [p for p in za if p[0] < p[1]], [p for p in zb if p[0] < p[1]]
+            for hname in ("update",):
+                out.append(dict(kind="history", id="n2-%s-patternchange-%s-to-%s" % (mclass, "".join("%d%d" % tuple(p) for p in za) or "none",
+                                                                                      "".join("%d%d" % tuple(p) for p in zb) or "none"),
+                                n=2, mclass=mclass, zeros=za, zeros2=zb, hist=hname, tol=0))
     if not q:
         import random
         rnd = random.Random(6)
@@ -97,7 +108,7 @@ def items(tier):
 
 def build_matrix(V, cfg, name):
     n, mclass = cfg["n"], cfg["mclass"]
-    zeros = set(tuple(p) for p in cfg["zeros"])
+    zeros = set(tuple(p) for p in (cfg["zeros2"] if (name == "B" and "zeros2" in cfg) else cfg["zeros"]))
     cplx = mclass in ("hermitian", "complex-symmetric")
     A = np.empty((n, n), dtype=object if V.symbolic else (complex if cplx else float))
     for i in range(n):
